@@ -80,6 +80,7 @@ type Knobs struct {
 	PSideKey        int  // a constructor body provides, while it runs, a constructor for a fresh key that later operations may consume
 	PSide           int  // a constructor / decorator body calls String, Visualize, Scope, Provide or Decorate (of an unrelated key) on the container
 	PReenter        int  // C02: probability that a constructor body calls back into the container
+	PEmbedPos       int  // the embedded dig.In / dig.Out of a generated object is not its first field
 	PNamedSlice     int  // a group parameter / slice-typed group result is declared with a named slice type
 	PZeroRes        int  // a single result / group member is returned as the zero value
 	PDeclIn         int  // a function gets a declared ignore-unexported parameter object (unexported fields between the exported ones)
@@ -104,7 +105,7 @@ func DefaultKnobs() Knobs {
 		PFault: 0, PPanic: 30, PDecoSelf: 75, PDecoGroup: 25, PDecoMulti: 20, PDecoExtra: 30,
 		PInvokeAll: 96, PInfo: 0, PCallback: 0, PDefer: 15, PRecover: 30, PHole: 40, PLate: 70, PCycleKeep: 5,
 		NoFaults: true, AvoidDecoCycle: true, PreferAvailable: true,
-		PDeclIn: 6, PZeroRes: 4, PNamedSlice: 7,
+		PDeclIn: 6, PZeroRes: 4, PNamedSlice: 7, PEmbedPos: 10,
 	}
 }
 
@@ -470,7 +471,11 @@ func (g *gen) nestParams(fields []Param, lbl string, depth int) Param {
 		outer = append(outer[:pos], append([]Param{inner}, outer[pos:]...)...)
 		return Param{IsObj: true, Obj: outer}
 	}
-	return Param{IsObj: true, Obj: fields}
+	po := Param{IsObj: true, Obj: fields}
+	if g.pct(g.k.PEmbedPos, lbl+"embed") {
+		po.EmbedAt = 1 + g.pick(len(fields)+1, lbl+"embedat")
+	}
+	return po
 }
 
 type rleaf struct {
@@ -520,7 +525,11 @@ func (g *gen) nestResults(fields []Result, lbl string, depth int) Result {
 		outer = append(outer[:pos], append([]Result{inner}, outer[pos:]...)...)
 		return Result{IsObj: true, Obj: outer}
 	}
-	return Result{IsObj: true, Obj: fields}
+	ro := Result{IsObj: true, Obj: fields}
+	if g.pct(g.k.PEmbedPos, lbl+"embed") {
+		ro.EmbedAt = 1 + g.pick(len(fields)+1, lbl+"embedat")
+	}
+	return ro
 }
 
 func (g *gen) newFn() *Fn {
@@ -1319,6 +1328,81 @@ func GenCase(t *rapid.T, k Knobs) *Case {
 			}
 			r -= w
 		}
+	}
+	return g.c
+}
+
+// GenDeepChain draws a long line of constructors f1 <- f2 <- ... <- fL over
+// distinct keys (registered in a random order, spread over a path of nested
+// scopes), whose bottom either fails (error / panic), lacks a dependency, or
+// works, and Invokes the top - error chains and resolution depth that the
+// ordinary histories (a dozen registrations) never reach.
+func GenDeepChain(t *rapid.T, k Knobs, maxLen int) *Case {
+	g := &gen{t: t, k: k, m: NewModel(), c: &Case{}, nscope: 1}
+	g.c.Cfg.Recover = g.pct(50, "recover")
+	g.c.Cfg.Defer = g.pct(15, "defer")
+	var keys []MKey
+	for _, kk := range g.universe() {
+		if !isIface(kk.T) && kk.T != "L0" {
+			keys = append(keys, kk)
+		}
+	}
+	// shuffle (Fisher-Yates over rapid draws)
+	for i := len(keys) - 1; i > 0; i-- {
+		j := g.pick(i+1, "shuf")
+		keys[i], keys[j] = keys[j], keys[i]
+	}
+	L := 8 + g.pick(maxLen-7, "chainlen")
+	if L > len(keys)-1 {
+		L = len(keys) - 1
+	}
+	nsc := g.pick(3, "chainscopes")
+	for s := 0; s < nsc; s++ {
+		g.m.AddScope(s, fmt.Sprintf("s%d", s+1))
+		g.c.Ops = append(g.c.Ops, Op{K: OpScope, S: s, Name: fmt.Sprintf("s%d", s+1)})
+		g.nscope++
+	}
+	bottom := g.pick(4, "bottom") // 0 ok, 1 error, 2 panic, 3 missing dependency
+	var provides []Op
+	scope := 0
+	for i := 0; i < L; i++ {
+		f := g.newFn()
+		if i > 0 {
+			f.P = g.encodeParams([]pleaf{{key: keys[i-1]}})
+		} else if bottom == 3 {
+			f.P = g.encodeParams([]pleaf{{key: keys[L]}}) // nobody provides keys[L]
+		}
+		f.R = g.encodeResults([]rleaf{{key: keys[i]}}, false)
+		if i == 0 && (bottom == 1 || bottom == 2) {
+			f.Err = true
+			f.Faults = []int{bottom}
+			f.PK = g.pick(6, "pk")
+			f.EK = g.pick(2, "ek")
+		} else if g.pct(30, "haserr") {
+			f.Err = true
+		}
+		// move down the scope path now and then (providers stay visible)
+		if scope < nsc && g.pct(20, "down") {
+			scope++
+		}
+		provides = append(provides, Op{K: OpProvide, S: scope, F: f})
+	}
+	for i := len(provides) - 1; i > 0; i-- {
+		j := g.pick(i+1, "pshuf")
+		provides[i], provides[j] = provides[j], provides[i]
+	}
+	g.c.Ops = append(g.c.Ops, provides...)
+	inv := g.newFn()
+	inv.P = g.encodeParams([]pleaf{{key: keys[L-1]}})
+	g.c.Ops = append(g.c.Ops, Op{K: OpInvoke, S: scope, F: inv})
+	if g.pct(50, "again") {
+		inv2 := g.newFn()
+		inv2.P = g.encodeParams([]pleaf{{key: keys[g.pick(L, "again-k")], opt: g.pct(30, "again-opt")}})
+		g.c.Ops = append(g.c.Ops, Op{K: OpInvoke, S: scope, F: inv2})
+	}
+	if g.pct(30, "vis") {
+		e := len(g.c.Ops) - 1
+		g.c.Ops = append(g.c.Ops, Op{K: OpVisualize, ErrOf: &e})
 	}
 	return g.c
 }
